@@ -7,6 +7,7 @@ CONSTANTS
   MinTotal = 0
   Leaky = FALSE
   Alphabet <- AllCmds
+  PreAlphabet <- AllCmds
   Kinds <- AllKinds
   Ctxs <- MainCtx
 SPECIFICATION TraceSpec
